@@ -442,7 +442,9 @@ def resize(catalog, ratio=None, psfhelper=None):
             if has_psf:
                 catbeam = Beam(src.psf_a / 3600, src.psf_b / 3600, src.psf_pa)
             else:
-                catbeam = Beam(*psfhelper.get_psf_sky2sky(src.ra, src.dec))
+                # (None when the beam is not defined at this position,
+                # e.g. beyond the horizon of the image projection)
+                catbeam = psfhelper.get_skybeam(src.ra, src.dec)
             imbeam = psfhelper.get_skybeam(src.ra, src.dec)
             # If either of the above are None then we skip this source.
             if catbeam is None or imbeam is None:
